@@ -94,6 +94,11 @@ InvReplaceAfterSet == (Mode = "tree" /\ Len(hist) >= 2 /\ ~IsSet(LastAct) /\ IsS
                       LET s == hist[Len(hist) - 1]  r == LastAct IN
                       \A m \in Declaring[s.f] : IsPrefix(Append(r.n, r.k), m) =>
                           val[<<m, s.f>>] = IF r.inh /\ Declares(r.n, s.f) THEN val[<<r.n, s.f>>] ELSE "built"
+(* save -> load: only base parameters of nested groups that differ from the root can change; a history that sets base
+   parameters at the root only (the time window selected at the top level) and replaces nothing is reproduced exactly *)
+InvRoundtripBand    == Mode = "tree" => \A p \in DOMAIN val : LoadOp(val)[p] # val[p] => RoundtripBand(p[1], p[2])
+InvRoundtripUniform == (Mode = "tree" /\ \A i \in DOMAIN hist : IsSet(hist[i]) /\ (hist[i].f \in BaseFields => hist[i].n = <<>>)) =>
+                           LoadOp(val) = val
 (* table sanity: every node has a class, every time-window field is declared everywhere, slots are nodes *)
 InvTable       == /\ \A n \in Nodes : NodeClass[n] \in DOMAIN ClassTable
                   /\ Declaring["time_begin"] = Nodes /\ Declaring["time_end"] = Nodes
